@@ -160,6 +160,8 @@ def _table_keys(ix, ci, e):
                 break
     if isinstance(e, ast.Dict) and all(const_str(k) is not None for k in e.keys):
         return {const_str(k) for k in e.keys}
+    if isinstance(e, (ast.Tuple, ast.List)) and e.elts and all(const_str(k) is not None for k in e.elts):
+        return {const_str(k) for k in e.elts}         # `k in <table>` arrives as `k in (<keys of the table>)`
     return None
 
 
